@@ -80,9 +80,11 @@ def do_run(name, checks):
     if out.strip():
         print("/repo is not clean:", out)
         return 2
-    rc, out = sh("git apply --3way %s 2>&1 || git apply %s" % (os.path.join(d, "patch.diff"), os.path.join(d, "patch.diff")), cwd="/repo")
+    pf = os.path.join(d, "patch.diff")
+    rc, out = sh("git apply %s 2>&1 || git apply --3way %s 2>&1" % (pf, pf), cwd="/repo")
     rc, st = sh("git status --short", cwd="/repo")
-    if not st.strip():
+    if not st.strip() or "UU " in st:
+        sh("git checkout HEAD -- . ; git reset -q", cwd="/repo")
         print("patch did not apply:", out)
         return 2
     try:
@@ -98,7 +100,7 @@ def do_run(name, checks):
             if rc == 2:
                 print(out[-800:])
     finally:
-        sh("git checkout -- . && git reset -q && git checkout -- . && git clean -fdq -- src tests", cwd="/repo")
+        sh("git reset -q; git checkout HEAD -- . ; git clean -fdq -- src tests", cwd="/repo")
     json.dump(meta, open(os.path.join(d, "meta.json"), "w"), indent=1)
     rc, st = sh("git status --short", cwd="/repo")
     if st.strip():
